@@ -4,12 +4,31 @@ property); every property of properties.jsonl that is not claimed is listed
 under not_applicable with its reason."""
 import json, subprocess
 
+EXEC_NOTE = "Trusted: TLC, the wire encoder/decoder of the harness (Go values <-> tagged records, numbers as exact limb records), Go's strconv for json.Number -> float64, the Go runtime's map iteration (every member order the specification enumerates is accepted; beyond 4 expansions of 2-member / 2 of 3-member objects results are compared as multisets). Raise sites whose suppressibility the properties do not fix, integer quotients (truncated or exact) and array subscripts below strict .** are accepted either way. Behaviours pinned by the repository's own tests that contradict the property are modelled as named deviations and listed in known-findings.jsonl."
+TECH = "explicit TLA+ specification of the evaluation rules (spec/PathSem.tla) model-checked by TLC over an exhaustive bounded universe; the universe TLC exported is replayed on the real code and every recorded observation is judged by a TLC trace specification (spec/Trace_Exec.tla)"
+
 CLAIMED = {
- "C07": dict(
-  technique="TLA+ spec (PathSem vs level-at-a-time oracle) model-checked by TLC over an exhaustive path x document universe; the same universe replayed on the real code and every observation judged by a TLC trace specification",
-  text="TLC enumerates every accessor/filter chain (16-step alphabet, length<=2 quick / <=3 thorough) x every JSON tree (<=3 / <=4 nodes, plus arrays with an ill-shaped element at each position) x {lax, strict}; checks on the specification that the continuation-style rules agree with an independent non-stopping oracle (lax: never an error; strict: suppressible error iff the oracle met a mismatch); the Go runner replays the exported universe through Query/First/Exists/Match/ExistsOrMatch (ASTs built with the exported constructors, not the parser) with and without WithSilent, and Trace_Exec (TLC) accepts an observation only if it is an outcome the rules permit.",
-  note="Trusted: TLC, the wire encoder/decoder of the harness, Go's map iteration for object member order (all permutations are accepted). Strict-mode array subscripts applied to non-arrays below .** are not decided (PostgreSQL skips, the port errs; the property is silent). One known finding (subscripts skip JSON null) is modelled as a named deviation.",
-  ref="DESIGN.md section 7 C07"),
+ "C01": dict(technique=TECH,
+  text="MC_Mix: TLC enumerates every kind of path head followed by up to 2 steps from a 22-step alphabet (accessors, subscripts, .**, filters, item methods) plus predicate check expressions x all JSON trees up to 3 nodes x {lax, strict} and checks that the outcomes PathSem assigns to the five entry points satisfy the laws of ExecLaws; the Go runner replays that universe, plus 20k (quick) / 400k (thorough) seeded random grammar-derivable paths of depth <= 3 on random documents and variables, and Trace_Exec accepts a Query observation only if some permitted evaluation of PathSem (object member order, unclassified raise sites, quotient policy) produces exactly those items in that order with that error class, with and without WithSilent.",
+  note=EXEC_NOTE + " Datetime methods and like_regex patterns outside the modelled fragment are reported as not decided (counted in the evidence).", ref="DESIGN.md section 7 C01"),
+ "C05": dict(technique=TECH,
+  text="On the MC_Mix universe and on seeded random cases the runner wraps every entry point in recover() and a wall-clock deadline, deep-copies document and variables before and compares after, checks every returned container for pointer identity with a sub-value of the input (or a keyvalue triple) and every number for finiteness; Trace_Exec rejects a record when any entry point panicked, returned ErrInvalid, an unclassified error, NULL from Query/First, an error not wrapping ErrExecution, a mutated input, a non-finite number or a foreign container. TLC checks that PathSem itself never produces such an outcome on the universe.",
+  note=EXEC_NOTE, ref="DESIGN.md section 7 C05"),
+ "C06": dict(technique=TECH,
+  text="For every case of MC_Mix and of the seeded random universe all five entry points are executed under the same options and Trace_Exec checks the relations of the property on the real observations: First = head of Query with the same error class; Query success => Exists = non-empty; Exists true => some permitted complete evaluation of PathSem yields an item; strict: Query error => Exists error; Match = sole boolean / NULL / single-boolean error; ExistsOrMatch = Match or Exists by IsPredicate. TLC checks the same relations on PathSem's own outcomes over the universe (they hold, so the law is consistent and non-vacuous: the universe contains paths that fail before, after and instead of producing items).",
+  note=EXEC_NOTE, ref="DESIGN.md section 7 C06"),
+ "C07": dict(technique=TECH,
+  text="MC_C07: TLC enumerates every accessor/filter chain (16-step alphabet, length<=2 quick / <=3 thorough, plus three-step shapes below .**) x every JSON tree (<=3 / <=4 nodes, plus arrays with an ill-shaped element at each position) x {lax, strict} and checks on the specification that the continuation-style rules agree with an independent level-at-a-time oracle that does not stop at a mismatch (lax: never an error; strict: suppressible error iff the oracle met a mismatch); the same universe is replayed on the real code and judged by Trace_Exec.",
+  note=EXEC_NOTE, ref="DESIGN.md section 7 C07"),
+ "C08": dict(technique=TECH,
+  text="Every case of MC_Mix (which contains filters and predicates with suppressible and with non-suppressible failing conditions followed by erroring steps) and of the seeded random universe is observed with and without WithSilent; Trace_Exec checks on the pair of real observations: no silent result wraps ErrVerbose; a verbose success is reproduced identically; a suppressible verbose failure becomes no error (Query/First) or NULL unless established (Exists/Match) and the silent items are exactly those PathSem produces before the failure; non-suppressible classes are returned unchanged.",
+  note=EXEC_NOTE, ref="DESIGN.md section 7 C08"),
+ "C14": dict(technique=TECH,
+  text="MC_C14: TLC enumerates all arrays of length 0..3 (quick) / 0..4 (thorough) over {null, 1, \"x\", [2], {\"a\":1}}, arrays of negative / fractional / out-of-int32 numbers and non-arrays x subscript lists built from abstract bounds (integers and halves, last, last+-k, every ordered pair as a range, lists, non-numeric / multi-valued / missing / out-of-int32 bounds, bounds read from the document, nested subscripts) x {lax, strict} and checks PathSem against a positional oracle computed from the abstract bounds; the universe, with float64 and json.Number spellings of every document, is replayed on the real code and judged by Trace_Exec.",
+  note=EXEC_NOTE, ref="DESIGN.md section 7 C14"),
+ "C15": dict(technique=TECH,
+  text="MC_C15: TLC enumerates all JSON trees up to 4 (quick) / 5 (thorough) nodes over {1, \"x\"} with keys {a, b}, empty containers at every position x .*, [*], .** with every level range over 0..3 (0..4) and last (including {last to k}), alone and followed by .a / .* x {lax, strict}; checks PathSem against a pre-order walk oracle, .** = .**{0 to last}, .**{k} = k-fold any-child, .**{last} = scalar leaves, and that strict member accessors below .** never err; the universe is replayed on the real code and judged by Trace_Exec (all member orders of the 2-member objects are enumerated).",
+  note=EXEC_NOTE, ref="DESIGN.md section 7 C15"),
 }
 
 NOT_YET = "check not built yet (build in progress); planned technique in DESIGN.md section 7"
